@@ -17,12 +17,15 @@ import (
 )
 
 // untrusted (C06): "<c|j> <mode> <env> <atlas> <type> | <hex>"   mode: u = Unmarshal into the type, p = pump into the other format
+// (U / P: the same, and the measured allocation is held to the tight bound of 2 MiB + 128 bytes per input byte)
 // result: "<class> alloc=<bytes> len=<n>"  class: ok | err | panic | hang
 
 func runUntrusted(payload string) string {
 	head, hx, _ := strings.Cut(payload, "|")
 	fs := strings.SplitN(strings.TrimSpace(head), " ", 3)
 	fmtc, mode := fs[0], fs[1]
+	tight := mode == "U" || mode == "P" // inputs whose cost must stay close to their length (chunk floods)
+	mode = strings.ToLower(mode)
 	_, ad, t, _, err := parseObjHeader(fs[2])
 	if err != nil {
 		return fmt.Sprintf("harness-error %v", err)
@@ -61,6 +64,9 @@ func runUntrusted(payload string) string {
 	case <-time.After(10 * time.Second):
 	}
 	runtime.ReadMemStats(&ms1)
+	if tight {
+		return fmt.Sprintf("%s alloc=%d len=%d tight=1", class, ms1.TotalAlloc-ms0.TotalAlloc, len(in))
+	}
 	return fmt.Sprintf("%s alloc=%d len=%d", class, ms1.TotalAlloc-ms0.TotalAlloc, len(in))
 }
 
@@ -101,6 +107,48 @@ func genUntrusted(g *G, tier string, emit func(string)) {
 			b = append(b, 0x61, 0x78)
 		}
 		adv = append(adv, append(append([]byte{}, b...), 0xff), b, append(append([]byte{}, b...), 0x7a, 0x02, 0x00, 0x00, 0x00))
+	}
+	// chunk floods: thousands of one- and two-byte chunks in one indefinite string; the accumulated
+	// item must not be re-copied per chunk (total allocation stays linear in the input)
+	bytesTargets := []string{"(env) (atlas 0) a", "(env) (atlas 0) s", "(env) (atlas 0) x", "(env) (atlas 0) xo", "(env) (atlas 0) (sl a)", "(env) (atlas 0) (mp s a)"}
+	for _, nch := range []int{6000, 10000} {
+		for _, sig := range []byte{0x7f, 0x5f} {
+			for _, clen := range []int{1, 2} {
+				b := []byte{sig}
+				for i := 0; i < nch; i++ {
+					b = append(b, (sig&0xe0)|byte(clen))
+					for k := 0; k < clen; k++ {
+						b = append(b, 'a'+byte(i%26))
+					}
+				}
+				b = append(b, 0xff)
+				for _, tgt := range bytesTargets[:4] {
+					em("c", "U", tgt, b)
+				}
+				em("c", "P", bytesTargets[0], b)
+				em("c", "U", bytesTargets[4], append(append([]byte{0x9f}, b...), 0xff))
+				em("c", "U", bytesTargets[5], append(append([]byte{0xa1, 0x61, 0x6b}, b...)))
+				em("c", "U", bytesTargets[0], b[:len(b)-1]) // cut before the break
+			}
+		}
+	}
+	// byte strings of every small length (definite and chunked), text, nulls and arrays into every bytes-like target,
+	// the arrays of a named byte type included (routed to the bytes machine by Kind)
+	fixedBytes := []string{"(env) (atlas 0) (X 4)", "(env) (atlas 0) (XO 4)", "(env) (atlas 0) (XO 0)", "(env) (atlas 0) xo", "(env) (atlas 0) (sl (XO 1))", "(env) (atlas 0) (mp s (XO 3))", "(env) (atlas 0) (pt (XO 4))", "(env) (atlas 0) (ar 2 (XO 1))"}
+	for _, tgt := range fixedBytes {
+		for n := 0; n <= 5; n++ {
+			pl := bytes.Repeat([]byte{0x07}, n)
+			def := append([]byte{0x40 + byte(n)}, pl...)
+			ind := append(append([]byte{0x5f, 0x40 + byte(n)}, pl...), 0xff)
+			txt := append([]byte{0x60 + byte(n)}, bytes.Repeat([]byte{0x61}, n)...)
+			arr := append([]byte{0x80 + byte(n)}, bytes.Repeat([]byte{0x07}, n)...)
+			for _, item := range [][]byte{def, ind, txt, arr, {0xf6}, append([]byte{0xc1}, def...)} {
+				em("c", "u", tgt, item)
+				em("c", "u", tgt, append([]byte{0x81}, item...))
+				em("c", "u", tgt, append([]byte{0x82}, append(append([]byte{}, item...), item...)...))
+				em("c", "u", tgt, append([]byte{0xa1, 0x61, 0x6b}, item...))
+			}
+		}
 	}
 	// deep nesting
 	depths := []int{100, 2000}
